@@ -1323,6 +1323,19 @@ def big_programs():
     return BIG
 
 
+def run_round9(ctx, stats):
+    """round 9: scale families (clause sizes x exit paths, counts) and throw site / handler in different modules"""
+    try:
+        from props import C08_r9
+    except Exception as ex:  # noqa
+        ctx.notes.append("tools/props/C08_r9.py not importable (%s): round-9 families skipped" % ex)
+        return
+    C08_r9.run_sizes(ctx, stats, impl_result)
+    C08_r9.run_counts(ctx, stats, impl_result)
+    C08_r9.run_modules(ctx, stats, impl_result)
+    stats["round9_programs"] = stats.get("scale_size_programs", 0) + stats.get("scale_count_programs", 0) + stats.get("cross_module_cases", 0)
+
+
 def run_big(ctx, stats):
     progs = big_programs()
     for prof in ("release", "debug"):
@@ -1575,11 +1588,15 @@ def run(ctx):
         return
     if ctx.replay_only and not ctx.replay_only.get("wire") and isinstance(ctx.replay_only.get("input"), str):
         # a fixed program (probe / directed family): re-run the recorded source against the recorded expectation
+        rmods = ctx.replay_only.get("modules")
+        rline = ("mods - " + hx(ctx.replay_only["input"]) + "".join(" %s=%s" % (hx(k), hx(v)) for k, v in sorted(rmods.items()))) if rmods \
+            else "run - " + hx(ctx.replay_only["input"])
         for prof in ("release", "debug"):
-            rec = yvlib.run_harness(ctx.harness(prof), ["run - " + hx(ctx.replay_only["input"])], case_timeout_ms=60000)[0]
+            rec = yvlib.run_harness(ctx.harness(prof), [rline], case_timeout_ms=240000)[0]
             if impl_result(rec) != ctx.replay_only.get("expected"):
                 ctx.violation("fixed program differs from its expectation", input=ctx.replay_only["input"],
-                              expected=ctx.replay_only.get("expected"), actual=impl_result(rec) + " (%s build)" % prof)
+                              expected=ctx.replay_only.get("expected"), actual=impl_result(rec) + " (%s build)" % prof,
+                              **({"modules": rmods} if rmods else {}))
                 break
         ctx.cov.update({"evaluations": 1, "distinct_nontrivial": 0, "rule": "replay", "samples": [ctx.replay_only["input"][:300]]})
         return
@@ -1600,6 +1617,13 @@ def run(ctx):
         if w:
             for r in evaluate(ctx, [unwire(w)], "replay", ndebug=1):
                 judge(ctx, r, stats)
+            finish(ctx, stats, [])
+        return
+    if not getattr(ctx, "_c08_skip_r9", False):
+        run_round9(ctx, stats)
+    if getattr(ctx, "_c08_search_fast", False):
+        # search(): the cheap directed scale / cross-module families alone, first
+        if stats["violations"]:
             finish(ctx, stats, [])
         return
     replay_witnesses(ctx, stats)
@@ -1684,7 +1708,11 @@ def finish(ctx, stats, results):
     n0 = len(ctx.violations)
     for k, r in enumerate(viol[:5]):
         small = shrink(ctx, r) if (k == 0 and r.get("prog")) else r
-        extra = {"input_summary": small["short"], "big_index": small["big_index"]} if small.get("short") else {}
+        extra = {"input_summary": small["short"]} if small.get("short") else {}
+        if small.get("big_index") is not None:
+            extra["big_index"] = small["big_index"]
+        if small.get("mods"):
+            extra["modules"] = small["mods"]
         if small.get("pending"):
             extra["pending"] = True
         ctx.violation("printed trace / outcome differs from the Spec outside the known classes", input=small["src"],
@@ -1699,7 +1727,8 @@ def finish(ctx, stats, results):
     stats["deco_nontrivial_count"] = len(deco_nt)
     ctx.cov.update({
         "evaluations": stats["total"] + stats.get("deco_programs", 0) + stats.get("directed_closure_programs", 0)
-                       + stats.get("kinds_programs", 0) + stats.get("repl_snippets", 0) + stats.get("pending_return_heap_programs", 0),
+                       + stats.get("kinds_programs", 0) + stats.get("repl_snippets", 0) + stats.get("pending_return_heap_programs", 0)
+                       + stats.get("round9_programs", 0),
         "distinct_nontrivial": len(stats["nontrivial"]) + len(deco_nt),
         "rule": "variables-and-closures family (programs outside the classes decorated with outer locals and escaping "
                 "closures, oracle = the full reference interpreter): non-trivial = the REAL trace raises an exception while "
@@ -1716,9 +1745,20 @@ def finish(ctx, stats, results):
 
 
 def search(ctx):
+    # directed families first (round 9: scale + cross-module, ~20 s): if they produce the failing input, stop there
     old = ctx.tier
+    ctx._c08_search_fast = True
+    try:
+        n0 = len(ctx.violations)
+        run(ctx)
+        if len(ctx.violations) > n0:
+            return
+    finally:
+        ctx._c08_search_fast = False
     ctx.tier = "thorough"
+    ctx._c08_skip_r9 = True        # just done
     try:
         run(ctx)
     finally:
         ctx.tier = old
+        ctx._c08_skip_r9 = False
